@@ -3,6 +3,7 @@ package main
 import (
 	"fmt"
 	"os"
+	"runtime/debug"
 
 	"verif/harness/core"
 )
@@ -66,11 +67,32 @@ func main() {
 		if t := os.Getenv("VERIF_TIER"); t == "thorough" && tier != "--replay" {
 			c.Tier = "thorough"
 		}
-		os.Exit(fn(c))
+		os.Exit(runCheck(fn, c))
 	default:
 		if !core.RunExtra(os.Args[1:]) {
 			fmt.Println("unknown command", os.Args[1])
 			os.Exit(2)
 		}
 	}
+}
+
+// runCheck runs one check. A panic that reaches the check's own goroutine is classified by where it was
+// raised: inside go.etcd.io/bbolt it is behaviour of the code under test (a finding with the stack as
+// evidence), anywhere else it is a defect of the harness (infrastructure, exit 2).
+func runCheck(fn func(*core.Ctx) int, c *core.Ctx) (rc int) {
+	defer func() {
+		if p := recover(); p != nil {
+			st := string(debug.Stack())
+			if core.PanicInRealCode(st) {
+				c.Findings = append(c.Findings, core.Finding{Scenario: core.Scenario{Name: "check-process", Kind: "panic"}, Spec: "harness",
+					Detail: fmt.Sprintf("the real code panicked while the check was driving it in-process: %v | %s", p, core.Tail(st, 40))})
+				rc = c.Finish(nil)
+				return
+			}
+			fmt.Printf("INFRA: panic in the harness: %v\n%s\n", p, st)
+			c.Cleanup()
+			rc = 2
+		}
+	}()
+	return fn(c)
 }
